@@ -179,6 +179,16 @@ pub fn replay(line: &str) -> (bool, String) {
             }
             (bad, out)
         }
+        "syncgrid" => {
+            let seed: u64 = line.split_whitespace().find_map(|t| t.strip_prefix("seed=")).and_then(|v| v.parse().ok()).unwrap_or(0);
+            let mut rep = crate::util::Report::new(check);
+            let bad = runloop::sync_grid_case(&mut rep, seed, true);
+            let mut out = String::new();
+            for f in rep.findings.values() {
+                out.push_str(&format!("  FINDING {}: {}\n", f.sig, f.detail));
+            }
+            (bad, out)
+        }
         "longrun" => {
             let mut rep = crate::util::Report::new(check);
             println!("check C15 long run: 2^32 + 2^20 instructions on one machine (takes minutes; meaningful in the ovf build)");
